@@ -71,7 +71,7 @@ CLAIMS["C20"] = dict(ref="§5 C20", tech="TLA+ spec of recursive table addresses
     text="TLC checks for all scaled (page, index) pairs that the recursive addresses have indices (R,R,R,p4)/(R,R,p4,p3)/(R,p4,p3,p2), are canonical and page-aligned, and explores the page-table state machine with a recursive slot; on the real crate: new() over recursive and near-recursive table addresses x root-register contents x slot contents must answer Ok/NotRecursive/NotActive exactly as specified and use the common index; every recursive-region page the mapper touches during random histories must be one the property names for that call and reach the frame the specification's hardware walk reaches; the computed table pages are compared for all 512 indices x lattice pages x 3 sizes.",
     note=TB_PT)
 
-CLAIMS["C16"] = dict(ref="§5 C16", tech="TLA+ contracts of typed/raw/update register accesses (Cpu.tla TypedWriteVal/UpdateVal, checked for all 8-bit contents x masks x arguments by TLC in MC_Regs) and per-wrapper contracts on the trapped instruction stream (Trace_Cpu.tla RegContract); TLC trace validation of the real wrappers running on the trap-and-emulate CPU; in-function read/write/read and double-update sequences (release build) so that wrong asm options (pure/nomem/nostack) show; red-zone probe for the RFLAGS accessors",
+CLAIMS["C16"] = dict(ref="§5 C16", tech="TLA+ contracts of typed/raw/update register accesses (Cpu.tla TypedWriteVal/UpdateVal, checked for all 8-bit contents x masks x arguments by TLC in MC_Regs) and per-wrapper contracts on the trapped instruction stream (Trace_Cpu.tla RegContract); TLC trace validation of the real wrappers running on the trap-and-emulate CPU; in-function read/write/read and double-update sequences (release build) so that wrong asm options (pure/nomem/nostack) show; red-zone probe for the RFLAGS accessors; calling-context and register-pressure probes (Trace_Cpu CtxOK / pressure / rwr / lean: each wrapper called from leaf functions that keep a carry, 13 register-held and 8 red-zone values or dirty upper register halves alive across the call, in debug and release) so that an untruthful asm! contract (clobbers, operand width, nostack, pure, preserves_flags) shows",
     text="For every wrapper and API the emulated register is preset, the compiled wrapper runs (debug+release) and every privileged instruction it executes traps; TLC checks that all instructions address the register the wrapper is named after (CR/DR number, MSR index in ECX), that the operand seen by the CPU (EDX:EAX, source register) is the value the contract prescribes - typed write = unmodelled bits of the previous content | given fields, raw write exact, read = modelled bits, update = read-modify-write, documented invalid STAR/XCR0 combinations rejected with no write instruction - and the return values. Found and fixed F8 (ApicBase::write).",
     note=TB_CPU + " Natively executing accesses (selector reads, FS/GS base, xgetbv, rflags, mxcsr) are compared with independent inline asm of the harness and limited to values ring 3 may load; FS::write_base is only exercised with the current base. SFMask/Pat/UCet/SCet/address MSR presets are restricted to contents the hardware can hold (the typed reads unwrap).")
 
@@ -79,14 +79,14 @@ CLAIMS["C08"] = dict(ref="§5 C08", tech="TLA+ state machine of a page-table ent
     text="TLC explores the entry state machine at scaled width (every aligned address, every flag set, every sequence of set_addr/set_flags/set_unused) with ghost address/flags and checks independence, read-back, unused <=> zero, frame <=> present; on the real crate random entry programs log the raw u64 before/after each step and every getter, and a table is written at all 512 slots through each access path and read back through all paths and as raw little-endian bytes at offset 8i, with new/zero/is_empty/clone/default, size and alignment.",
     note=TB_PURE)
 
-CLAIMS["C14"] = dict(ref="§5 C14", tech="TLA+ state machine of the GDT (Gdt.tla) model-checked by TLC over all append sequences for capacities 1..6 (MC_Gdt: null first, order, capacity, refused append is a no-op, selector = first slot/GDT/DPL, limit); TLC trace validation (Trace_Gdt.tla) of append histories, from_raw_entries and the trapped lgdt operand on the real type for MAX in {1,2,3,8,9,8192}; cross-structure delivery check (Machine.tla / Trace_Machine.tla)",
+CLAIMS["C14"] = dict(ref="§5 C14", tech="TLA+ state machine of the GDT (Gdt.tla) model-checked by TLC over all append sequences for capacities 1..6 (MC_Gdt: null first, order, capacity, refused append is a no-op, selector = first slot/GDT/DPL, limit); TLC trace validation (Trace_Gdt.tla) of append histories, from_raw_entries and the trapped lgdt operand on the real type for MAX in {1,2,3,8,9,8192}; cross-structure delivery check (Machine.tla / Trace_Machine.tla); calling-context and register-pressure probes (Trace_Cpu CtxOK / pressure / rwr / lean: each wrapper called from leaf functions that keep a carry, 13 register-held and 8 red-zone values or dirty upper register halves alive across the call, in debug and release) so that an untruthful asm! contract (clobbers, operand width, nostack, pure, preserves_flags) shows",
     text="TLC explores every append sequence over user/system descriptors of all DPLs for capacities 1..6 and checks the table invariants and that selectors never overlap; the real GlobalDescriptorTable is driven with random sequences until and beyond capacity for MAX in {1,2,3,8,9,8192}; after each append TLC compares selector, length, limit and the tail of entries() with the state machine (a panicking append must leave the table unchanged), then the complete table, the clone, the lgdt operand (base = address of entries()[0], limit = 8*slots-1) and from_raw_entries incl. its refusal cases.",
     note=TB_CPU)
 CLAIMS["C15"] = dict(ref="§5 C15", tech="TLA+ decoders of the architectural descriptor formats (Gdt.tla DecodeSys/DecodeUser/TssDescriptorOK/PresetOK; encode-decode round trip checked by TLC); TLC trace validation of tss_segment*, the predefined descriptors, dpl() and the TSS / descriptor-table-pointer layouts of the real crate; cross-structure delivery check (Machine.tla / Trace_Machine.tla: ltr and IST/RSP0 stacks read from the raw TSS image)",
     text="The TSS descriptor returned for every pointer of the 64-bit boundary lattice and random pointers is decoded by the specification per the 16-byte system-descriptor format and must give base = pointer, limit 0x67, type 9, present, DPL 0, all reserved bits zero; predefined code/data descriptors and flag presets must decode to what their names state; dpl() = bits 45-46; field offsets, sizes, iomap_base = 0x68 and the raw bytes of a DescriptorTablePointer are compared with the manual's layout.",
     note=TB_PURE.replace("the declarative lemmas in the specification", "the descriptor decoders in Gdt.tla"))
 
-CLAIMS["C12"] = dict(ref="§5 C12", tech="TLA+ model of the IDT with the architectural 64-bit gate encoding (Idt.tla; setters as a state machine checked by TLC in MC_Idt: own field of own gate only, encode/decode round trip, reserved bits zero); TLC trace validation (Trace_Idt.tla) of raw-byte diffs of the real table after every call, of index/range access and of the trapped lidt operand; cross-structure delivery check (Machine.tla / Trace_Machine.tla: every vector delivered over the raw IDT/GDT/TSS memory handed to the emulated CPU)",
+CLAIMS["C12"] = dict(ref="§5 C12", tech="TLA+ model of the IDT with the architectural 64-bit gate encoding (Idt.tla; setters as a state machine checked by TLC in MC_Idt: own field of own gate only, encode/decode round trip, reserved bits zero); TLC trace validation (Trace_Idt.tla) of raw-byte diffs of the real table after every call, of index/range access and of the trapped lidt operand; cross-structure delivery check (Machine.tla / Trace_Machine.tla: every vector delivered over the raw IDT/GDT/TSS memory handed to the emulated CPU); calling-context and register-pressure probes (Trace_Cpu CtxOK / pressure / rwr / lean: each wrapper called from leaf functions that keep a carry, 13 register-held and 8 red-zone values or dirty upper register halves alive across the call, in debug and release) so that an untruthful asm! contract (clobbers, operand width, nostack, pure, preserves_flags) shows",
     text="TLC explores all setter sequences on a restricted vector domain and checks that every setter changes only its field of its gate and that gates encode/decode per the architectural layout; on the real crate, for all 256 vectors and every access path, handler installation and random option-setter sequences are recorded with the raw 16-byte gates that changed and TLC compares them with the encoding of the specification's gate (address, current CS, present, interrupt gate, DPL 0, IST 0; setters change only their field; handler_addr reads back); Index<u8> offset = 16v or refusal exactly on reserved/error-code/diverging vectors; every RangeBounds form gives the slice at byte 16*lower of length upper-lower or refuses below vector 32; untouched/reset tables are all non-present interrupt gates; lidt gets the table address and limit 4095.",
     note=TB_CPU)
 
